@@ -231,6 +231,12 @@ func c09GenEvent(t *rapid.T, at int64, wantInvalid bool, monitor bool) advEvent 
 	if wantInvalid {
 		if !typeInvalid || rapid.Bool().Draw(t, "alsohop") {
 			ev.Hop = rapid.SampledFrom([]int{1, 64, 128, 254, 1, 2, 100}).Draw(t, "hop")
+			if rapid.Bool().Draw(t, "anyhop") {
+				ev.Hop = rapid.IntRange(1, 256).Draw(t, "hopv") // 256 encodes hop limit 0
+				if ev.Hop == 255 {
+					ev.Hop = 253
+				}
+			}
 		}
 	} else if typeInvalid {
 		ev.Kind, ev.Msg = "rs", ""
